@@ -96,8 +96,11 @@ def gen_single(r, i, thorough):
     return c
 
 
-def gen_two(r, i, sched=None):
+def gen_two(r, i, sched=None, small=False):
     d1, d2 = gen_data(r), gen_data(r)
+    if small:
+        d1 = {"pat": r.choice(PATS), "reps": r.randint(0, 6), "tail": "1"}
+        d2 = {"pat": r.choice(PATS), "reps": r.randint(0, 6), "tail": "2"}
     if make_data(d1) == make_data(d2):
         d2 = {"pat": "other\n", "reps": 2, "tail": ""}
     c = {"kind": "two", "i": i, "exists": r.random() < .85, "old": r.choice(["old\n" * 3, "", "x" * 9000]),
@@ -1011,7 +1014,7 @@ def evaluate(ctx, cases, impl):
             per[ci] = ex
             exprs.append(ex["main"])
             index.append((ci, "main"))
-    model = cm.coq_eval_json(REQ, exprs, shard=40)
+    model = cm.coq_eval_json(REQ, exprs, shard=80)
     res = {}
     for (ci, tag), mv in zip(index, model):
         res.setdefault(ci, {})[tag] = mv
@@ -1048,11 +1051,11 @@ def evaluate(ctx, cases, impl):
 
 def run(ctx):
     thorough = not ctx.quick
-    n_single = 6000 if thorough else 260
-    n_two = 400 if thorough else 50
+    n_single = 2000 if thorough else 260
+    n_two = 300 if thorough else 50
     n_strace = 40 if thorough else 6
     ctx.coverage["rule"] = (
-        "single-writer cases (target present/absent x 14 modes x umasks x sizes 0..70 kB around the 8192-byte buffer x "
+        "single-writer cases (target present/absent x 17 modes x umasks x sizes 0..30 kB around the 8192-byte buffer x "
         "stale temp file x {no fault, OSError at each of the 7 calls (5 errnos, ENOENT at stat), os._exit before each call, "
         "natural EPERM of an unprivileged chown} x {direct call, bin/tidy-imports -r in-process}); two real processes stepped "
         "call by call through a schedule (random in quick; all C(14,7)=3432 in thorough) with optional faults; the unpatched "
@@ -1077,7 +1080,7 @@ def run(ctx):
         for i, s in enumerate(all_schedules()):
             if i >= budget:
                 break
-            cases.append(gen_two(cm.rng(ctx.seed, "c08", "sched", i % 8), 100000 + i, sched=s))
+            cases.append(gen_two(cm.rng(ctx.seed, "c08", "sched", i), 100000 + i, sched=s, small=(i % 16 != 0)))
         ctx.notes["exhaustive_schedules"] = min(budget, 3432)
     proc = [c for c in cases if c["kind"] in ("single", "two")]
     impl = cm.run_impl("c08", "impl_case", proc, timeout_case=60)
